@@ -14,6 +14,7 @@
 # 51 Franklin Street, Fifth Floor, Boston, MA  02110-1301, USA.
 
 from abc import (ABC, abstractmethod)
+import copy
 
 import numpy
 from numpy.random import Generator
@@ -451,7 +452,7 @@ class BaseAdaptiveSupport(ABC):
         self.start_step = max(self.nsteps, 1)
 
         for attr, val in self._initial_proposal_params.items():
-            setattr(self, attr, val)
+            setattr(self, attr, copy.deepcopy(val))
 
     @abstractmethod
     def _update(self, chain):
